@@ -227,10 +227,27 @@ static int recv_events(m_ctx_t *c, int timeout) {
     fetch_ms(&now, NULL);
     c->stats.idle_time += now - last_time_called;
 
+    /*
+     * Keep sources of this batch alive while it is processed: a callback may deregister
+     * (or stop/deregister the module of) a source whose event comes later in the same batch.
+     */
+    ev_src_t *batch[nfds > 0 ? nfds : 1];
+    for (int i = 0; i < nfds; i++) {
+        batch[i] = m_mem_ref(poll_recv(&c->ppriv, i));
+    }
+
     for (int i = 0; i < nfds && !err; i++) {
-        ev_src_t *p = poll_recv(&c->ppriv, i);
+        ev_src_t *p = batch[i];
         if (p) {
             M_ASSERT(p->process);
+            if (p->flags & M_SRC_ZOMBIE) {
+                // Source was deregistered by a previous callback of this same batch
+                continue;
+            }
+            if (p->mod && !m_mod_is(p->mod, M_MOD_RUNNING)) {
+                // Module was paused by a previous callback of this same batch: its sources are no more polled
+                continue;
+            }
             if (!p->mod) {
                 // It is a ctx priv event
                 p = p->process(p, c, i, NULL);
@@ -298,6 +315,10 @@ static int recv_events(m_ctx_t *c, int timeout) {
             err = EAGAIN;
             M_WARN("Received message without proper source: src -> %p\n", p);
         }
+    }
+
+    for (int i = 0; i < nfds; i++) {
+        m_mem_unref(batch[i]);
     }
 
     if (recved > 0 && err == 0) {
